@@ -118,7 +118,7 @@ func c18(p *P) {
 		if !r.Check(len(wantedLookups) > 0, "C18.R1", "cacheAsDiscoveredChain: consults the WANTED cache", where, fmt.Sprintf("%d lookups on the wanted cache", len(wantedLookups)),
 			"no lookup on the wanted cache: chains the node asked for are treated as unsolicited (never promoted, evictable)") {
 		} else if len(discIns) == 0 || len(wantedIns) == 0 {
-			r.Undecided("C18.R1", "cacheAsDiscoveredChain: insertions", fmt.Sprintf("expected insertions into both caches, found discovered=%d wanted=%d", len(discIns), len(wantedIns)))
+			r.Fail("C18.R1", "cacheAsDiscoveredChain: unsolicited chains go to discovered, asked-for chains replace their placeholder in wanted", where, fmt.Sprintf("insertions found: discovered=%d wanted=%d — a chain the node asked for must be stored in the WANTED cache (placeholder replacement), otherwise it is evictable by unsolicited chains", len(discIns), len(wantedIns)))
 		} else {
 			found := VM{Name: "wanted miss", Match: func(f *ssa.Function) map[ssa.Value]AV {
 				out := map[ssa.Value]AV{}
